@@ -244,6 +244,21 @@ def gen_tree(r, bs=4096, nfiles=8, ndirs=3, hostile=False, specials=True, xattrs
                     if k.startswith(b"security.") and xattrs == "safe":
                         continue
                     e.xattrs[k] = r.choice(vals)
+        # special files with attribute sets of their own (the extended variants of the fifo / socket / device / symlink inodes):
+        # trusted.* is the one namespace every inode type may carry on the host
+        n = 0
+        for e in ents:
+            if e.type in (FIFO, SOCK, CHR, BLK, SLINK) and e.explicit and r.randrange(2) == 0:
+                n += 1
+                e.xattrs[b"trusted.sp%d" % (n % 3)] = b"special-%d" % n
+    return ents
+
+
+def host_materialisable(ents):
+    """in place: what a host directory cannot hold is cut down (symlink targets above PATH_MAX - 1)"""
+    for e in ents:
+        if e.type == SLINK and e.target is not None and len(e.target) > 4095:
+            e.target = e.target[:4095]
     return ents
 
 
